@@ -121,6 +121,8 @@ def check_n2(ctx) -> None:
     mm = repo.module('geophires_x/__main__.py')
     main = repo.function('geophires_x/GEOPHIRESv3.py', 'main')
     tries = [st for st in mm.tree.body if isinstance(st, ast.Try)]
+    # a try that is the body of a top-level `with <restoring context manager>:` is as good as a top-level try
+    tries += [s_ for st in mm.tree.body if isinstance(st, ast.With) for s_ in st.body if isinstance(s_, ast.Try)]
     call_try = None
     for tr in tries:
         for st in tr.body:
@@ -161,9 +163,19 @@ def check_n2(ctx) -> None:
     if rc_assigns:
         ctx.require(tr is not None, '__main__: status variable present but simulation call not inside try (idiom changed)')
         init = [v for st, v in rc_assigns if st in mm.tree.body and st.lineno < tr.lineno]
-        ctx.check(bool(init) and all(_nonzero_expr(v) for v in init), 'N2', '__main__/rc-initially-nonzero', where,
-                  f'{RC} is not initialised to a non-zero status before the simulation runs: an exception path that '
-                  f'reaches the final exit would report success')
+
+        def assigns_rc(stmts) -> bool:
+            return any(isinstance(x, ast.Assign) and norm(x.targets[0]) == RC for s_ in stmts for x in ast.walk(s_))
+        # paths that reach the final exit: the body completing (+ else), and every handler that does not re-raise.  When each of them sets
+        # the status itself no initial value is needed (any other exception propagates and never reaches the exit)
+        from gxstat.flowutil import handler_reraises as _hr
+        need_init = not assigns_rc(list(tr.body) + list(tr.orelse)) or any(not _hr(h) and not assigns_rc(h.body) for h in tr.handlers)
+        if need_init or init:
+            ctx.check(bool(init) and all(_nonzero_expr(v) for v in init), 'N2', '__main__/rc-initially-nonzero', where,
+                      f'{RC} is not initialised to a non-zero status before the simulation runs: an exception path that '
+                      f'reaches the final exit would report success')
+        else:
+            ctx.ok('N2', '__main__/rc-initially-nonzero', where, f'every path that reaches the final exit sets {RC} itself')
         zero = [st for st, v in rc_assigns if _nonzero_expr(v) is False and isinstance(v, ast.Constant)]
         for st in zero:
             in_body_after = (any(st is s for s in tr.body) and st.lineno > call.lineno) or any(st is s for s in tr.orelse)
@@ -240,9 +252,24 @@ def check_n3(ctx) -> None:
                       f'__main__/argv[{idx}]-absolute', f'{mm.rel}:{st.lineno}',
                       f'sys.argv[{idx}] = {v}: not made absolute, but GEOPHIRESv3.main changes the working directory before '
                       f'the three consumers open it')
-    ctx.floor('N3', n, 3, 'argv stores in __main__')
+    ctx.floor('N3', n, 2, 'argv stores in __main__')            # (input path, output path; the default output may share the store)
     # default output name is the documented HDR.out in the caller's cwd (captured before the simulation changes it)
-    dflt = [(st, norm(inline_sequential(st.value, st))) for st in ast.walk(mm.tree) if isinstance(st, ast.Assign) and norm(st.targets[0]) == 'sys.argv[2]']
+    def variants(st):
+        """The value stored, once per possible definition of a local that is set in the branches of a preceding if (`p = A if .. else B`
+        written as an if/else)."""
+        v0 = inline_sequential(st.value, st)
+        opaque = [x.id for x in ast.walk(v0) if isinstance(x, ast.Name) and isinstance(x.ctx, ast.Load)]
+        outv = []
+        for nm in dict.fromkeys(opaque):
+            dfs = [a_ for a_ in ast.walk(mm.tree) if isinstance(a_, ast.Assign) and len(a_.targets) == 1 and norm(a_.targets[0]) == nm and a_.lineno < st.lineno]
+            if len(dfs) >= 2:
+                from gxstat.inline import _subst_once
+                from gxstat.srcmodel import clone as _cl
+                for a_ in dfs:
+                    outv.append(norm(_subst_once(_cl(v0), nm, inline_sequential(a_.value, a_))))
+                return outv
+        return [norm(v0)]
+    dflt = [(st, v) for st in ast.walk(mm.tree) if isinstance(st, ast.Assign) and norm(st.targets[0]) == 'sys.argv[2]' for v in variants(st)]
     dflt = [(st, v) for st, v in dflt if 'HDR.out' in v]
     ctx.check(len(dflt) == 1 and any(x in dflt[0][1] for x in ('Path.cwd()', 'os.getcwd()')), 'N3', '__main__/default-output-in-caller-cwd',
               f'{mm.rel}:{dflt[0][0].lineno if dflt else 1}', 'the default report path is not HDR.out in the caller\'s directory')
